@@ -197,6 +197,18 @@ def run_interner(prog):
     key = "maybe_unpool:threshold"
     obs.append(ok(R, key, "", "the pool entry is removed only when strong_count <= 2 (this handle + the pool)") if worst else
                bad(R, key, "", "a handle's Drop can remove the pool entry without the test strong_count <= 2 (or never tests it)"))
+    # the count compared with the threshold is the masked reference count (the word also carries the UTF-8 flag bit)
+    f = prog.fn(I + "inner::Inner::strong_count")
+    key = "strong_count:masked"
+    if f is None:
+        obs.append(bad(R, key, "", "Inner::strong_count not found"))
+    else:
+        cs = [(t.get("res") or t.get("fn") or "") for b, t in f.calls() if not f.is_cleanup(b)]
+        raw = any(s2[0] == "a" and s2[1] == [0] and s2[2][0] == "use" and s2[2][1][0] in ("cp", "mv") and
+                  any(isinstance(pp, str) and pp.endswith(":utf8_refcnt") for pp in s2[2][1][1][1:]) for bb in f.live_blocks for s2 in f.stmts(bb))
+        obs.append(ok(R, key, site(f), "strong_count() returns InnerHeader::refcnt() (flag bit masked off)") if any(c.endswith("InnerHeader::refcnt") for c in cs) and not raw else
+                   bad(R, key, site(f), "strong_count() does not return InnerHeader::refcnt(): the raw word includes the UTF-8 flag bit, so `strong_count <= 2` never "
+                       "holds for strings and they are never removed from the pool"))
     # (5) the refcount has exactly two writers: Inner::clone (+1) and Drop for Inner (-1)
     writers = sorted({cf.path for cf, b, t in prog.callers.get(I + "inner::InnerHeader::set_refcnt", [])})
     want = {I + "inner::Inner::clone", "<%sinner::Inner as core::clone::Clone>::clone" % I, "<%sinner::Inner as core::ops::drop::Drop>::drop" % I,
